@@ -6,6 +6,8 @@ mod fam_push;
 mod fam_dyn;
 mod fam_ops;
 mod fam_res;
+mod fam_gen;
+mod fam_generation;
 mod fam_sel;
 mod fam_lex;
 mod fam_stack;
@@ -69,6 +71,8 @@ fn main() {
         "ops" => fam_ops::run(&cfg),
         "res" => fam_res::run(&cfg),
         "dyn" => fam_dyn::run(&cfg),
+        "gen" => fam_gen::run(&cfg),
+        "generation" => fam_generation::run(&cfg),
         f => { eprintln!("unknown family {f}"); std::process::exit(2) }
     };
     let js = serde_json::to_string_pretty(&rep.to_json()).unwrap();
